@@ -269,16 +269,12 @@ static int URI_FUNC(AddBaseUriImpl)(URI_TYPE(Uri) * absDest,
 									return URI_ERROR_MALLOC;
 								}
 
-								if (!URI_FUNC(FixAmbiguity)(absDest, memory)) {
-									return URI_ERROR_MALLOC;
-								}
 	/* [25/32]				endif; */
 							}
 	/* [26/32]				T.query = R.query; */
 							absDest->query = relSource->query;
 	/* [27/32]			endif; */
 						}
-						URI_FUNC(FixEmptyTrailSegment)(absDest, memory);
 	/* [29/32]		endif; */
 					}
 	/* [30/32]		T.scheme = Base.scheme; */
@@ -287,6 +283,11 @@ static int URI_FUNC(AddBaseUriImpl)(URI_TYPE(Uri) * absDest,
 				}
 	/* [32/32]	T.fragment = R.fragment; */
 				absDest->fragment = relSource->fragment;
+
+	/* Keep the path from being read back as something else */
+	if (!URI_FUNC(FixAmbiguity)(absDest, memory)) {
+		return URI_ERROR_MALLOC;
+	}
 
 	return URI_SUCCESS;
 
